@@ -107,6 +107,7 @@ static int nsh;
 
 static void trunc20(char *dst, const char *src)
 {
+    if (!src) src = "<filename null>";       /* what every tracked entry point records for a caller that passes no file name */
     size_t n = strlen(src);
     if (n > SPIFMEM_FNAME_LEN) n = SPIFMEM_FNAME_LEN;
     memcpy(dst, src, n); dst[n] = 0;
@@ -227,7 +228,7 @@ static void do_op(void)
     int tracks = via < 0 ? ACTIVE() : macro_tracks;      /* does this call reach the table? */
     int op = (int) vh_below(100);
     const char *viaS = via < 0 ? "spifmem" : "MACRO";
-    if (via < 0) { file = FNAMES[vh_below(7)]; line = LINES[vh_below(sizeof LINES / sizeof LINES[0])]; }
+    if (via < 0) { file = FNAMES[vh_below(7)]; line = LINES[vh_below(sizeof LINES / sizeof LINES[0])]; if (vh_coin(6)) { file = NULL; vh_count("direct_calls_without_a_file_name", 1); } }
     else file = SITES[via].file();
 
     if (op < 4) {                                            /* toggle the runtime level */
@@ -248,6 +249,16 @@ static void do_op(void)
         unstale(pool[i].p);
         vh_count("op_plain_malloc", 1);
         check_table("plain-malloc");
+        return;
+    }
+    if (op >= 27 && op < 36 && level == 0 && vh_coin(30)) {     /* calloc whose element count times element size does not fit: no block, no record */
+        size_t cnt = ((size_t) -1) / 3 + 2 + (size_t) vh_below(1000);
+        vh_op("%s calloc(%zu x 3): the product overflows", viaS, cnt);
+        void *p = via < 0 ? spifmem_calloc(file, line, cnt, 3) : SITES[via].c(cnt, &line);
+        vh_evals(1); dg_add(p != NULL);
+        if (p) vh_fail("calloc:overflow", "calloc(%zu, 3) returned a block although %zu x 3 bytes cannot exist", cnt, cnt);
+        vh_count("calloc_overflowing_requests", 1);
+        check_table("calloc-overflow");
         return;
     }
     if (op < 45) {                                           /* malloc / calloc / strdup into an empty slot */
@@ -291,7 +302,7 @@ static void do_op(void)
         if (tracks) sh_add(p, n, file, line);
         vh_count(which == 0 ? "op_malloc" : which == 1 ? "op_calloc" : "op_strdup", 1);
         if (tracks) vh_count("tracked_allocations", 1); else vh_count("untracked_allocations", 1);
-        vh_cov(vh_mix(vh_mix((uint64_t) which, (uint64_t) (via < 0 ? 100 + (int) strlen(file) % 50 : via)), (uint64_t) ACTIVE() * 64 + (uint64_t) (nsh > 31 ? 31 : nsh)));
+        vh_cov(vh_mix(vh_mix((uint64_t) which, (uint64_t) (via < 0 ? 100 + (file ? (int) strlen(file) % 50 : 49) : via)), (uint64_t) ACTIVE() * 64 + (uint64_t) (nsh > 31 ? 31 : nsh)));
         check_table(opkey);
         return;
     }
@@ -351,7 +362,7 @@ static void do_op(void)
                 vh_count("realloc_unknown", 1);              /* unknown pointer: table unchanged (new block stays unknown) */
             }
             s->p = p; s->size = n; fill(s);
-            vh_cov(vh_mix(vh_mix(7, (uint64_t) (!old ? 0 : was_tracked ? 1 : 2)), vh_mix((uint64_t) (via < 0 ? 100 + (int) strlen(file) % 50 : via), (uint64_t) (nsh > 31 ? 31 : nsh))));
+            vh_cov(vh_mix(vh_mix(7, (uint64_t) (!old ? 0 : was_tracked ? 1 : 2)), vh_mix((uint64_t) (via < 0 ? 100 + (file ? (int) strlen(file) % 50 : 49) : via), (uint64_t) (nsh > 31 ? 31 : nsh))));
             check_table(!old ? "realloc-null" : was_tracked ? "realloc" : "realloc-unknown");
             return;
         }
